@@ -2,6 +2,7 @@ package cfsim
 
 import (
 	"fmt"
+	"os"
 	"strings"
 
 	"github.com/massnetorg/mass-core/wire"
@@ -29,7 +30,7 @@ type Violation struct {
 }
 
 // RunTwin replays the script undisturbed, counting commits and database calls per operation.
-func RunTwin(s *Script, trace bool) (*Twin, error) {
+func RunTwin(s *Script, trace, snaps bool) (*Twin, error) {
 	r, err := NewRun(s)
 	if err != nil {
 		return nil, err
@@ -67,6 +68,14 @@ func RunTwin(s *Script, trace bool) (*Twin, error) {
 		t.Calls = append(t.Calls, n)
 		if trace {
 			t.Kinds = append(t.Kinds, append([]dbwrap.Kind{}, ctl.Trace...))
+		}
+		if snaps {
+			sn := ""
+			// (not right after import/remove: the worker is already busy, the status is in motion)
+			if op.Kind == OpCreate || op.Kind == OpNewAddr || op.Kind == OpAnnounce || op.Kind == OpWait {
+				sn = r.Snapshot()
+			}
+			t.Snap = append(t.Snap, sn)
 		}
 	}
 	t.Commits = ctl.NCommits()
@@ -221,7 +230,7 @@ func RunCrash(s *Script, ks []int, moveOn int, dropLost bool, twin *Twin) (*Cras
 			j = i + 1
 		}
 		m := moveOn
-		if at.Context == "restart" || at.Context == "after-restart" || at.Context == "open" {
+		if at.Context == "restart" || at.Context == "after-restart" {
 			m = 0 // (keeps the record of an interrupted catch-up in order)
 		}
 		for ; j < len(s.Ops) && m > 0; j++ {
@@ -343,17 +352,27 @@ func RunCrash(s *Script, ks []int, moveOn int, dropLost bool, twin *Twin) (*Cras
 		return nil, fmt.Errorf("crash point reached while taking the final snapshot (background work after the final wait)")
 	}
 	res.Lines = append(r.Lines, "E")
+	if Strict(res.Final) != Strict(twin.Final) && len(res.Crashes) == 0 {
+		f, x, y := firstDiff(Strict(twin.Final), Strict(res.Final))
+		return nil, fmt.Errorf("replay without any crash differs from the twin (harness not deterministic): %s | %s | %s", f, x, y)
+	}
 	if res.Final != twin.Final && len(res.Crashes) > 0 {
 		ctxs := []string{}
 		for _, c := range res.Crashes {
 			ctxs = append(ctxs, c.Context)
 		}
-		field, a, b := firstDiff(twin.Final, res.Final)
-		res.Viol = &Violation{Key: "crash-" + strings.Join(ctxs, "+") + ":" + field,
-			What: fmt.Sprintf("after crash(es) %v and restart the wallet reports [%s]; the run that never stopped reports [%s]", res.Crashes, b, a)}
-	}
-	if res.Final != twin.Final && len(res.Crashes) == 0 {
-		return nil, fmt.Errorf("replay without any crash differs from the twin (harness not deterministic): %v", func() string { f, a, b := firstDiff(twin.Final, res.Final); return f + " | " + a + " | " + b }())
+		if os.Getenv("VERIF_CF_DEBUG") != "" {
+			fmt.Fprintf(os.Stderr, "TWIN\n%s\nCRASHED\n%s\n", twin.Final, res.Final)
+		}
+		if Strict(res.Final) != Strict(twin.Final) {
+			field, a, b := firstDiff(Strict(twin.Final), Strict(res.Final))
+			res.Viol = &Violation{Key: "crash-" + strings.Join(ctxs, "+") + ":" + field,
+				What: fmt.Sprintf("after crash(es) %v and restart the wallet reports [%s]; the run that never stopped reports [%s]", res.Crashes, b, a)}
+		} else {
+			_, a, b := firstDiff(Soft(twin.Final), Soft(res.Final))
+			res.Viol = &Violation{Key: "addressbook-row-lost-by-rollback",
+				What: fmt.Sprintf("ledgers and keystores agree, the address lists do not: after crash(es) %v and restart [%s]; the run that never stopped [%s]", res.Crashes, b, a)}
+		}
 	}
 	return res, nil
 }
